@@ -158,30 +158,31 @@ Theorem c07_matchers :
   select order b = select order' b) /\
   (* c07_select_prefix_stable *)
   (forall b e order p, at_most_one (b ++ e) ->
-  select order b = SelProto p -> select order (b ++ e) = SelProto p) /\
-  (* c07_match_exclusive_partial *)
-  (forall b p q, wf_bytes b -> p <> q ->
-  matcher p b = MSuccess -> matcher q b = MSuccess -> p = PThrift \/ q = PThrift) /\
-  (* c07_thrift_accepts_iff *)
-  (forall b, thrift_match b = MSuccess <-> 6 <= blen b /\ byte_at b 4 = 218 /\ byte_at b 5 = 188).
-Proof. exact (conj matcher_monotone (conj select_order_independent (conj select_prefix_stable (conj two_successes_involve_thrift thrift_success_iff)))). Qed.
+  select order b = SelProto p -> select order (b ++ e) = SelProto p).
+Proof. exact (conj matcher_monotone (conj select_order_independent select_prefix_stable)). Qed.
 Print Assumptions c07_matchers.
 
 (* SelectStreamFactoryProtocol iterates a Go map: for bytes that at most one matcher accepts its result is the same
    for every iteration order, and a protocol chosen on a prefix is the protocol chosen on every longer read *)
 
-(* exclusivity: the full statement "no two matchers accept the same bytes" is false on the code as it is *)
-Definition c07_match_exclusive_statement : Prop := forall b, wf_bytes b -> at_most_one b.
-Theorem c07_match_exclusive_refuted : ~ c07_match_exclusive_statement.
-Proof.
-  intros H. assert (E : PBolt = PThrift) by (apply (H collide_frame); [repeat constructor|vm_compute; reflexivity|vm_compute; reflexivity]).
-  discriminate E.
-Qed.
-Print Assumptions c07_match_exclusive_refuted.
-Theorem c07_select_depends_on_map_order :
-  matcher PBolt collide_frame = MSuccess /\ matcher PThrift collide_frame = MSuccess /\
-  select [PBolt; PThrift] collide_frame <> select [PThrift; PBolt] collide_frame.
-Proof. exact exclusivity_refuted. Qed.
-(* the strongest true restriction: two different matchers accept the same bytes only if one of them is dubbo-thrift
-   (its magic sits at offset 4..5, where bolt carries the version byte and the request id, dubbo the request id, ...);
-   the six others are pairwise exclusive, and dubbo-thrift accepts exactly when bytes 4,5 are 0xda 0xbc *)
+(* EXCLUSIVITY (after the repair of the dubbo-thrift matcher, read from the source as thrift_match_first_zero): for
+   well-formed bytes no two of the seven matchers accept the same bytes; hence SelectStreamFactoryProtocol - which iterates
+   a Go map - returns the same answer for every iteration order, and a protocol chosen on a first read is the protocol
+   chosen on every longer first read (detection commutes with segmentation) *)
+Theorem c07_match_exclusive : forall b p q, wf_bytes b ->
+  matcher p b = MSuccess -> matcher q b = MSuccess -> p = q.
+Proof. exact matchers_exclusive. Qed.
+Print Assumptions c07_match_exclusive.
+Theorem c07_select_function_of_bytes :
+  (forall b order order', wf_bytes b -> Permutation order order' -> select order b = select order' b) /\
+  (forall b e order p, wf_bytes (b ++ e) -> select order b = SelProto p -> select order (b ++ e) = SelProto p).
+Proof. exact (conj select_order_independent_wf select_prefix_stable_wf). Qed.
+Print Assumptions c07_select_function_of_bytes.
+Theorem c07_thrift_matcher_src_repaired : thrift_match_first_zero = true.
+Proof. exact eq_refl. Qed.
+(* the matcher before the repair accepted a bolt frame that carries 0xda 0xbc at offset 4..5 (version byte, request id) *)
+Theorem c07_unrepaired_thrift_matcher_collides :
+  bolt_match bolt_ProtocolCode [1;1;0;1;218; 188;0;0;7; 1; 0;0;0;100; 0;0; 0;0; 0;0;0;0] = MSuccess /\
+  thrift_match_sw false [1;1;0;1;218; 188;0;0;7; 1; 0;0;0;100; 0;0; 0;0; 0;0;0;0] = MSuccess /\
+  thrift_match [1;1;0;1;218; 188;0;0;7; 1; 0;0;0;100; 0;0; 0;0; 0;0;0;0] = MFailed.
+Proof. exact unrepaired_thrift_collides. Qed.
